@@ -166,6 +166,10 @@ func (b *Builder) FromPcap(pcapDir string, pcapFilenames []string, existingIndex
 	allNeededPcaps := []*pcapmetadata.PcapInfo(nil)
 outer:
 	for _, pcap := range b.knownPcaps {
+		if pcap.PacketCount == 0 {
+			// nothing to replay, and its zero timestamps would be sorted in front of everything
+			continue
+		}
 		for _, newPcap := range newPcapInfos {
 			if pcap == newPcap {
 				continue outer
